@@ -68,6 +68,69 @@ def canon(elem):
     return c(elem)
 
 
+INSTANCE_VARIANTS = ["as-is", "empty-attribute", "blank-attribute", "empty-attribute-on-child", "attribute-zero"]
+
+
+def run_instance(case, ctx):
+    """element-identical round trip of a message object through the SOAP envelope builder and through the extension-element carrier"""
+    import saml2_tophat
+    from saml2_tophat import samlp, saml, soap
+    kind, msg, is_resp, soaptype = ctx.msgs[case["msg"]]
+    d = xk.Doc(msg)
+    v = case["variant"]
+    if v == "empty-attribute":
+        d = d.set_attr(d.root, "Consent", "")
+    elif v == "blank-attribute":
+        d = d.set_attr(d.root, "Consent", " ")
+    elif v == "attribute-zero":
+        d = d.set_attr(d.root, "Consent", "0")
+    elif v == "empty-attribute-on-child":
+        kids = [c for c in d.root.children if c.ns == xk.SAML and c.local in ("Issuer", "Assertion", "NameID")]
+        if kids:
+            d = d.set_attr(kids[0], "Format" if kids[0].local != "Assertion" else "verifEmpty", "")
+    text = d.text()
+    cls = {"AuthnRequest": samlp.AuthnRequest, "LogoutRequest": samlp.LogoutRequest, "AttributeQuery": samlp.AttributeQuery, "Response": samlp.Response}[d.root.local]
+    inst = saml2_tophat.create_class_from_xml_string(cls, text)
+    viol, counters = [], {"independent_reads": 0, "library_decodes": 0}
+    if inst is None:
+        return {"outcome": "not-parsed", "nontrivial": False, "violations": [], "counters": counters}
+    want = canon(ET.fromstring(inst.to_string()))
+    if canon(ET.fromstring(text.encode("utf-8"))) != want and v != "empty-attribute-on-child":
+        counters["instance_differs_from_text"] = 1      # (C12's business; here the instance is the original)
+
+    def bad(key, what):
+        viol.append({"key": "C14/" + key, "what": "message object %s (%s): %s" % (kind, v, what)})
+    # (1) SOAP envelope around the instance, as the PAOS/ECP code builds it
+    try:
+        env_text = soap.make_soap_enveloped_saml_thingy(inst)
+        envl = ET.fromstring(env_text if isinstance(env_text, bytes) else env_text.encode("utf-8"))
+        counters["independent_reads"] += 1
+        body = [c for c in envl if c.tag == "{%s}Body" % SOAPENV]
+        if len(body) != 1 or len(body[0]) != 1:
+            bad("soap-envelope-structure", "%d bodies" % len(body))
+        elif canon(body[0][0]) != want:
+            bad("instance-envelope-not-element-identical", "independent read of the envelope body differs from the message (first difference in attributes: %r vs %r)" % (
+                sorted(body[0][0].attrib.items())[:6], sorted(ET.fromstring(inst.to_string()).attrib.items())[:6]))
+        back = soap.parse_soap_enveloped_saml_thingy(env_text, ["{%s}%s" % (cls.c_namespace, cls.c_tag)])
+        counters["library_decodes"] += 1
+        if back is None or canon(ET.fromstring(back if isinstance(back, bytes) else back.encode("utf-8"))) != want:
+            bad("instance-envelope-roundtrip", "library decoder returned something else than the message")
+    except Exception as exc:
+        bad("packaging-raised:instance-envelope", repr(exc)[:200])
+    # (2) the message as extension element (ArtifactResponse carries it so) and back
+    try:
+        ee = saml2_tophat.element_to_extension_element(inst)
+        back = saml2_tophat.extension_elements_to_elements([ee], [samlp, saml])
+        counters["library_decodes"] += 1
+        if len(back) != 1 or canon(ET.fromstring(back[0].to_string())) != want:
+            got = ET.fromstring(back[0].to_string()) if back else None
+            bad("extension-element-carrier-not-element-identical", "attributes after the round trip %r, before %r" % (
+                sorted(got.attrib.items())[:6] if got is not None else None, sorted(ET.fromstring(inst.to_string()).attrib.items())[:6]))
+    except Exception as exc:
+        bad("packaging-raised:extension-element-carrier", repr(exc)[:200])
+    return {"outcome": "violations" if viol else "held", "nontrivial": True, "violations": viol, "counters": counters}
+
+
 def setup_worker(ctx):
     sp, idp = fed.pair()
     ctx.sp, ctx.idp = sp, idp
@@ -118,6 +181,12 @@ def gen_cases(tier, seed):
                             continue
                         cases.append({"id": "%s-m%d-%s%d-%s" % (binding, mk, rclass, ri, dk), "sig": [binding, mk, rclass, dk],
                                       "binding": binding, "msg": mk, "relay": relay, "rclass": rclass, "dest": dk})
+    # packaging of message OBJECTS (what the PAOS/ECP and artifact-resolution encoders do: envelope built around an instance, message carried
+    # as an extension element of an ArtifactResponse) - with attributes that are present but empty, padded, or in another lexical form
+    for mk in range(13):
+        for variant in INSTANCE_VARIANTS:
+            cases.append({"id": "instance-m%d-%s" % (mk, variant), "sig": ["instance", mk, variant], "binding": "instance", "msg": mk, "variant": variant,
+                          "relay": "", "rclass": "empty", "dest": "noquery"})
     # arbitrary payloads through the byte-exact bindings
     for k in range(40 if tier == "quick" else 600):
         r2 = random.Random("%s/payload/%d" % (seed, k))
@@ -166,6 +235,8 @@ def run_case(case, ctx):
 
 
 def _run_case(case, ctx):
+    if case["binding"] == "instance":
+        return run_instance(case, ctx)
     from saml2_tophat.entity import Entity
     ent = ctx.idp if (case["msg"] is not None and case["msg"] >= 4) else ctx.sp
     binding = case["binding"]
@@ -318,7 +389,7 @@ def finalize(cases, results, tier, extras):
     for r in results:
         b = str(r.get("id", "")).split("-")[0]
         by[b] = by.get(b, 0) + r.get("counters", {}).get("library_decodes", 0)
-    for b in ("post", "redirect", "soap", "paos", "artifact"):
+    for b in ("post", "redirect", "soap", "paos", "artifact", "instance"):
         if not by.get(b):
             inc.append("no library decode observed for binding %s" % b)
     return {"inconclusive": inc, "coverage": {"library_decodes_by_binding": by}}
